@@ -147,6 +147,9 @@ func c22CoqOp(o c22Op) string {
 	if o.Kind == "autoconnect" {
 		return "(OAutoConnect, " + f + ")"
 	}
+	if o.Kind == "remove" {
+		return "(ORemove, " + f + ")"
+	}
 	if o.Kind == "connect" {
 		return "(OConnect " + vh.CoqN(uint64(o.ID)) + " " + vh.CoqBool(o.Auto) + " " + vh.CoqBool(o.ByGadget) + ", " + f + ")"
 	}
@@ -268,6 +271,23 @@ func (w *c22World) runOp(op c22Op) (created, failed bool) {
 		ac.WaitFor(sp)
 		ts = state.NewTaskSet(sp, ac)
 		mainKind = "setup-profiles"
+	case "remove":
+		// removal of the plug snap at the interface level: auto-disconnect (injects the real disconnect tasks with the
+		// auto-disconnect flag), the snap leaves snapstate (stand-in for unlink-snap .. discard-snap), remove-profiles,
+		// discard-conns
+		snapsup := &snapstate.SnapSetup{SideInfo: &snap.SideInfo{RealName: "consumer", Revision: snap.R(1)}}
+		var prev *state.Task
+		ts = state.NewTaskSet()
+		for _, kind := range []string{"auto-disconnect", "verif-c22-unlink", "remove-profiles", "discard-conns"} {
+			t := st.NewTask(kind, "")
+			t.Set("snap-setup", snapsup)
+			if prev != nil {
+				t.WaitFor(prev)
+			}
+			ts.AddTask(t)
+			prev = t
+		}
+		mainKind = "auto-disconnect"
 	case "disconnect":
 		conn, cerr := repo.Connection(ref)
 		switch {
@@ -302,7 +322,7 @@ func (w *c22World) runOp(op c22Op) (created, failed bool) {
 			post = append(post, t)
 		}
 	}
-	if op.Kind == "autoconnect" {
+	if op.Kind == "autoconnect" || op.Kind == "remove" {
 		pre, post = nil, nil // no hook tasks yet: auto-connect injects them later; failures are injected with error-trigger tasks
 	}
 	hookOf := func(t *state.Task) string {
@@ -394,6 +414,25 @@ slots:
 	s.state.Unlock()
 
 	mgr := s.manager(c) // registers the snaps, reloads the connections
+	var savedSnapst snapstate.SnapState
+	s.o.TaskRunner().AddHandler("verif-c22-unlink", func(t *state.Task, _ *tomb.Tomb) error {
+		s.state.Lock()
+		defer s.state.Unlock()
+		if err := snapstate.Get(s.state, "consumer", &savedSnapst); err != nil {
+			return err
+		}
+		snapstate.Set(s.state, "consumer", nil)
+		return nil
+	}, func(t *state.Task, _ *tomb.Tomb) error {
+		s.state.Lock()
+		defer s.state.Unlock()
+		snapstate.Set(s.state, "consumer", &savedSnapst)
+		return nil
+	})
+	s.secBackend.RemoveCallback = func(snapName string) error {
+		w.prof[snapName] = nil
+		return nil
+	}
 	repo := mgr.Repository()
 	s.secBackend.SetupCallback = func(appSet *interfaces.SnapAppSet, opts interfaces.ConfinementOptions, r *interfaces.Repository) error {
 		w.setupN++
@@ -431,8 +470,8 @@ slots:
 				}
 			}
 			stp.Viol = op.Kind + "/" + op.Fail + "/" + e
-			if op.Kind == "autoconnect" {
-				stp.Viol = "autoconnect/" + op.Fail
+			if op.Kind == "autoconnect" || op.Kind == "remove" {
+				stp.Viol = op.Kind + "/" + op.Fail
 			}
 			if op.Kind == "disconnect" && op.Forget {
 				stp.Viol = "forget/" + op.Fail + "/" + e
@@ -442,6 +481,9 @@ slots:
 		steps = append(steps, stp)
 		if viol != "" {
 			break // at most one violating step per history, the last one
+		}
+		if op.Kind == "remove" && created && !failed {
+			break // the plug snap is gone: the model's world (both snaps installed) ends here
 		}
 	}
 
@@ -485,7 +527,10 @@ func c22RandOp(r *vh.Rand) c22Op {
 	if r.Intn(5) < 2 {
 		op.ID = 0 // the pair with hooks on both sides
 	}
-	if r.Chance(1, 5) {
+	if r.Chance(1, 8) {
+		op.Kind = "remove"
+		op.ID = 0
+	} else if r.Chance(1, 5) {
 		op.Kind = "autoconnect"
 		op.ID = 0
 	} else if r.Bool() {
@@ -519,6 +564,9 @@ func c22RandOp(r *vh.Rand) c22Op {
 	default:
 		op.Fail = "after"
 		op.K = r.Intn(2)
+	}
+	if op.Kind == "remove" && op.Fail == "main" {
+		op.Fail = "after" // failure points of a removal: before / after (security setup failures inside it are not modelled)
 	}
 	return op
 }
@@ -555,6 +603,18 @@ func c22Gen(r *vh.Rand, tier string, n int) []c22In {
 	if tier == "thorough" || n >= 60 {
 		for _, e := range entries {
 			for _, f := range fails {
+				if f.Fail != "main" {
+					rin := c22In{Ops: []c22Op{{Kind: "remove", Fail: f.Fail, K: f.K}}}
+					if e != nil {
+						y := *e
+						y.ID = 2
+						rin.Init = []c22Conn{*e, y}
+						if f.K == 1 {
+							rin.Init = []c22Conn{*e}
+						}
+					}
+					ins = append(ins, rin)
+				}
 				in := c22In{Ops: []c22Op{{Kind: "autoconnect", Fail: f.Fail, K: f.K}}}
 				if e != nil {
 					in.Init = []c22Conn{*e}
